@@ -241,6 +241,19 @@ func verifK11Page(clk *verifK11Clock, n, w int, tw time.Time, wk *openfgav1.Tupl
 		otk := &openfgav1.TupleKey{Object: "e:1", Relation: "q", User: "u:9"}
 		if vt.ParamInt("vocab", 0) == 1 {
 			otk = &openfgav1.TupleKey{Object: objs[vt.Choose("change-object"+id, 3)], Relation: rels[vt.Choose("change-relation"+id, 2)], User: users[vt.Choose("change-user"+id, 3)]}
+		} else if vt.ParamInt("vocab", 0) == 2 {
+			// neighbours of the write: the same object and relation for ANOTHER user, or the same user on another
+			// object of the type (several changes of one run then share an invalidation marker key)
+			nb := vt.ParamInt("nb"+id, -1) // pinned per position by the larger pages
+			if nb < 0 {
+				nb = vt.Choose("change-neighbour"+id, 3)
+			}
+			switch nb {
+			case 1:
+				otk = &openfgav1.TupleKey{Object: wk.GetObject(), Relation: wk.GetRelation(), User: "u:9"}
+			case 2:
+				otk = &openfgav1.TupleKey{Object: "d:8", Relation: "q", User: wk.GetUser()}
+			}
 		} else if vt.Choose("change-same-tuple"+id, 2) == 1 {
 			otk = &openfgav1.TupleKey{Object: wk.GetObject(), Relation: wk.GetRelation(), User: wk.GetUser()}
 		}
@@ -274,6 +287,24 @@ func verifK11PrevChangelog(clk *verifK11Clock, cache *verifK11Cache, store strin
 	cache.Set(storage.ChangelogCacheKey(store), &storage.ChangelogCacheEntry{LastModified: tp, LastChecked: now}, qttl)
 	clk.still()
 	return true, tp
+}
+
+// verifK11PrevMarker (prevmark=1) optionally leaves the invalidation marker of an EARLIER partial run in the cache:
+// that run saw a change of `user` on an object of type `objectType` (api 2) or of object#relation (api 0/1) and
+// stamped the marker with its own time; the change itself has since left the most recent changelog page, so later
+// runs do not refresh the marker, which lives for the iterator TTL from that run. The marker precedes the fill, so the
+// entry of the scenario is valid with respect to it; the scenario's own write concerns ANOTHER key of the same query.
+func verifK11PrevMarker(clk *verifK11Clock, cache *verifK11Cache, store string, api int, ittl time.Duration) {
+	if vt.ParamInt("prevmark", 0) != 1 || !vt.ForkBool("previous-run-marker") {
+		return
+	}
+	now := clk.step("gap-prevmark", 0)
+	if api == 2 {
+		cache.Set(storage.InvalidIteratorByUserObjectTypeCacheKey(store, "u:1", "d"), &storage.InvalidEntityCacheEntry{LastModified: now}, ittl)
+	} else {
+		cache.Set(storage.InvalidIteratorByObjectRelationCacheKey(store, "d:1", "r"), &storage.InvalidEntityCacheEntry{LastModified: now}, ittl)
+	}
+	clk.still()
 }
 
 type verifK11Delegate struct {
@@ -494,6 +525,7 @@ func verifK11IteratorScenario() (stale bool) {
 	}
 
 	hasPrev, tp := verifK11PrevChangelog(clk, cache, store, qttl)
+	verifK11PrevMarker(clk, cache, store, api, ittl)
 
 	// fill: the query misses, the (empty) result is consumed, stopped and flushed by the real background path
 	clk.step("gap-fill", 0)
